@@ -14,7 +14,8 @@ Binding (driver harness/fragd, exported API of fragmentation.Fragmentation):
           graph of the real code compared with the TLC graph of the same
           scenario; every real transition validated at P-level by TLC
   race    4 free-running goroutines, histories linearized by TLC
-  timeout 50 ms reassembly timeout, 120 ms sleep (lower bounds only)
+  timeout 400 ms reassembly timeout, timed arrivals (every gap < T, first-to-last > T; one long gap; all fast);
+          the harness clock before/after each call is logged and TLC derives the ages (TraceFrag mode "timed")
 """
 import copy
 import json
@@ -209,6 +210,12 @@ def validate_all(ctx, items):
             what = '%s: Process panicked (%s) [%s]' % (it['kind'], ev.get('panic'), key or 'consistent fragment sequence')
             if key == 'D1':
                 ctx.extra['crash_on_inconsistent'] = ctx.extra.get('crash_on_inconsistent', 0) + 1
+        elif seg[0].get('mode') == 'timed' and ev.get('ev') == 'ret' and ev.get('done') and ln >= 1:
+            calls = [e for e in seg[:ln] if e.get('ev') == 'call']
+            ages = [calls[-1]['t0'] - h['t1'] for h in calls[:-1]]
+            what = ('timeout history (%s): a datagram was handed up although it is complete only together with fragments received at least '
+                    '%s ms before the last one (reassembly timeout %d ms): fragments older than the timeout were combined with a newer one; payload %s'
+                    % (seg[0].get('shape'), sorted(a for a in ages if a > seg[0]['timeout_ms']), seg[0]['timeout_ms'], brief([ev])[0]['payload']))
         ctx.violation(what, dict(kind=it['kind'], events=seg[:ln + 1], **it['info']), key=key)
 
 
@@ -333,7 +340,7 @@ def gate(ctx, drv):
     return items
 
 
-def selftest(ctx, segs):
+def selftest(ctx, segs, timed=None):
     """Binding self-test: corrupted / event-dropped histories must be rejected."""
     base = None
     for s in segs:
@@ -369,6 +376,19 @@ def selftest(ctx, segs):
     tests['missing-delivery'] = b4
     if not ctx.thorough():
         tests = {k: tests[k] for k in ('payload-byte',)}
+    if timed:
+        # a delivered "fast" history with the completing call moved 2 T into the future: its fragments are now too old
+        for s_ in timed:
+            di_ = [i for i, e in enumerate(s_) if e.get('ev') == 'ret' and e.get('done')]
+            if s_[0].get('shape') == 'fast' and di_:
+                b5 = copy.deepcopy(s_[:di_[0] + 1])
+                b5[di_[0] - 1]['t0'] += 2 * b5[0]['timeout_ms']
+                b5[di_[0] - 1]['t1'] += 2 * b5[0]['timeout_ms']
+                tests['stale-combined'] = b5
+                break
+        if 'stale-combined' not in tests:
+            ctx.extra['binding_selftest_timed'] = 'skipped: no fast timeout history was delivered within the timeout on this (loaded) machine'
+
     for nm, b in tests.items():
         a, rj = vlib.validate_segments(ctx, 'TraceFrag', TC, SPEC, [b], name='selftest-' + nm, count=False)
         if not rj:
@@ -397,10 +417,11 @@ def run(ctx):
     seqs = [it['seg'] for it in items]
     items += gate(ctx, drv)
     items += trace_mode(ctx, drv, 'race', [ctx.seed, ctx.pick(40, 400), 4, 5])
-    items += trace_mode(ctx, drv, 'timeout', [ctx.seed, ctx.pick(12, 60)])
+    titems = trace_mode(ctx, drv, 'timeout', [ctx.seed, ctx.pick(12, 60)])
+    items += titems
     validate_all(ctx, items)
 
-    selftest(ctx, seqs)
+    selftest(ctx, seqs, [it['seg'] for it in titems])
     stack_level(ctx)
     assumptions(ctx)
 
@@ -477,7 +498,7 @@ def assumptions(ctx):
     ctx.assumptions += [
         'Go runtime (mutexes, scheduler) and the gate scheduler are trusted; hook H7 sits between the critical sections of Process',
         'fragment identity is the uint32 id passed to Process; hash collisions between datagrams are out of scope',
-        'timeout histories use only lower bounds on time (sleep 120 ms > 50 ms timeout); delivery is never demanded there',
+        'timeout histories: the implementation reads its clock between the logged t0 (before the call) and t1 (after it); a fragment is treated as too old only when f.t0 - h.t1 > T and delivery is demanded only when f.t1 - h.t0 <= T for every fragment seen, so jitter cannot cause an alarm',
         'memory-limit graphs: delivery is demanded only while the bytes of all arrived, undelivered fragments stay within the high limit',
     ]
 
